@@ -859,6 +859,16 @@ fn build_domain(items: &[Item], chosen: &BTreeMap<usize, String>, feats: &[Strin
         ("std::sync::Mutex<sea_query::SelectStatement>", "SelectStatement"),
         ("Vec<sea_query::Value>", "Value"),
         ("Option<Box<sea_query::Values>>", "Values"),
+        // associated types of the public trait impls (no field of any struct, so the scan of definitions does not see them)
+        ("<sea_query::ValueTuple as IntoIterator>::IntoIter", "ValueTuple"),
+        ("<sea_query::ValueTuple as IntoIterator>::Item", "ValueTuple"),
+        ("<sea_query::Values as IntoIterator>::IntoIter", "Values"),
+        ("<sea_query::Values as IntoIterator>::Item", "Values"),
+        ("<sea_query::DynIden as sea_query::IdenList>::IntoIter", "DynIden"),
+        ("<(sea_query::DynIden, sea_query::DynIden) as sea_query::IdenList>::IntoIter", "DynIden"),
+        ("<(sea_query::DynIden, sea_query::DynIden, sea_query::DynIden) as sea_query::IdenList>::IntoIter", "DynIden"),
+        ("<sea_query::DynIden as std::ops::Deref>::Target", "DynIden"),
+        ("<sea_query::Tokenizer as Iterator>::Item", "Tokenizer"),
     ] {
         entries.push(Entry {
             name: short(t),
@@ -868,6 +878,13 @@ fn build_domain(items: &[Item], chosen: &BTreeMap<usize, String>, feats: &[Strin
             about: vec![about.to_string()],
             args_bearing: false,
         });
+    }
+    for (name, stmt, about) in [
+        ("return-type<Values::iter>", "{ let v = _mk::<sea_query::Values>(); _send_val(v.iter()); }", "Values"),
+        ("return-type<Tokenizer::iter>", "{ let t = _mk::<sea_query::Tokenizer>(); _send_val(t.iter()); }", "Tokenizer"),
+        ("return-type<ValueTuple::into_iter>", "{ let t = _mk::<sea_query::ValueTuple>(); _send_val(t.into_iter()); }", "ValueTuple"),
+    ] {
+        entries.push(Entry { name: name.to_string(), class: "composite".into(), send: stmt.to_string(), sync: None, about: vec![about.to_string()], args_bearing: false });
     }
     if has(feats, "derive") && has(feats, "attr") {
         for t in ["user::Glyph", "user::Unit", "user::FooIden", "user::Manual"] {
